@@ -1685,6 +1685,9 @@ def run(repo, chk, tier):
     from ..cacheown import check_persistent_state
 
     check_persistent_state(repo, chk, ["tf_pwa/config_loader/decay_config.py", "tf_pwa/config_loader/config_loader.py", "tf_pwa/config_loader/base_config.py"])
+    from ..cacheown import check_mutable_defaults
+
+    check_mutable_defaults(repo, chk, ["tf_pwa/config_loader/", "tf_pwa/particle.py"])
     chk.rule(
         "E4",
         "no iteration order of a set (S), of a dict filled in set order (M) or of a sequence derived from one (U) reaches "
